@@ -397,6 +397,15 @@ pub fn run(rt: &tokio::runtime::Runtime, case: Value) -> Value {
                         std::mem::forget(raft);
                     }
                     nodes[ai].log.close().await;
+                    if let Ok(dir) = std::env::var("DPROBE_GAP_JOURNAL") {
+                        // diagnostic: a storage whose indexes are not 1..=k at restart is dumped with the store's journal
+                        let keys: Vec<u64> = engine.log.ents.lock().unwrap().keys().copied().collect();
+                        let contiguous = keys.iter().enumerate().all(|(i, k)| *k == i as u64 + 1);
+                        if !contiguous && engine.log.boundary.lock().unwrap().is_none() {
+                            let j = engine.log.journal.lock().unwrap().join("\n");
+                            let _ = std::fs::write(format!("{dir}/gap_{}_{}.txt", std::process::id(), a), format!("node {a} keys {keys:?}\n{j}\n"));
+                        }
+                    }
                     {
                         let mut g = net.lock().unwrap();
                         g.links.retain(|(f, _), _| *f != a);
